@@ -11,6 +11,7 @@ import json
 from vlib import common, histcheck, miri
 
 MODULE = "TriompheModel.Props.C09"
+EXTRA = ["TriompheModel.Props.Gates", "TriompheModel.WM.Consume"]
 TAGS = ["C09"]
 WEIGHTS = dict(tryUnwrap=18, unwrapOrClone=16, intoInner=8, tryUnique=16, clone=18, conv=16, create=16, drop=8)
 PROGRAMS_QUICK = ["try_unwrap_vs_drop"]
@@ -50,10 +51,9 @@ def schedule_search(ctx, prop, bad, lean_failed):
 
 def run(ctx):
     facts, res, bad = schedule_part(ctx, "C09", PROGRAMS_QUICK)
-    histcheck.run(ctx, MODULE, WEIGHTS, TAGS)
-    lean_failed = [n for n in ctx.failed_obligations() if n.startswith("lean:") and ("obl_" in n or "exclusive" in n)]
-    if (lean_failed or bad) and not any(v["kind"] == "miri" for v in ctx.violations):
-        schedule_search(ctx, "C09", bad, lean_failed)
+    histcheck.run(ctx, MODULE, WEIGHTS, TAGS, lean_extra=EXTRA)
+    if bad and not any(v["kind"] == "miri" for v in ctx.violations) and not getattr(ctx, "sched_handled", False):
+        schedule_search(ctx, "C09", bad, [])
 
 
 def replay(ctx, path):
